@@ -502,7 +502,7 @@ func (r *run) binop(fr *frame, op token.Token, t types.Type, x, y value, instr s
 		return notV(r.eqnil(t, x, y))
 	}
 	if isSym(x) || isSym(y) {
-		return r.symBinop(fr, op, t, x, y, instr)
+		return r.nameIfLarge(r.symBinop(fr, op, t, x, y, instr))
 	}
 	switch xv := x.(type) {
 	case int64:
@@ -1287,9 +1287,11 @@ func (r *run) wrapIfNeeded(ii intInfo, t string) string {
 		lo = "0"
 		hi = smtUint(^uint64(0) >> (64 - uint(ii.bits)))
 	}
-	if e := parseSexp(t); e != nil {
-		if r.intervalOf(e).within(typeRange(ii)) {
-			return t
+	if len(t) < 3000 {
+		if e := parseSexp(t); e != nil {
+			if r.intervalOf(e).within(typeRange(ii)) {
+				return t
+			}
 		}
 	}
 	key := t + "@" + ii.wrapFn() + "@" + traceKey(r.trace)
@@ -1323,4 +1325,20 @@ func traceKey(tr []int) string {
 		b[i] = byte('0' + d)
 	}
 	return string(b)
+}
+
+// nameIfLarge replaces a large term by a fresh variable constrained to equal it, so that
+// terms re-used in later expressions (ite, str.++ ...) cannot grow exponentially.
+func (r *run) nameIfLarge(v value) value {
+	s, ok := v.(*sym)
+	if !ok || len(s.t) < 1200 {
+		return v
+	}
+	n := r.fresh("t", "named subterm", s.sort)
+	if s.sort == SFP {
+		r.solver.Assert("(= " + n.t + " " + s.t + ")")
+	} else {
+		r.solver.Assert("(= " + n.t + " " + s.t + ")")
+	}
+	return &sym{n.t, s.sort}
 }
